@@ -73,14 +73,22 @@ def claimed():
     import subprocess, json as _j
     out = subprocess.run(["/verif/bin/klevlint", "-verif", "/verif", "-describe"], capture_output=True, text=True, check=True).stdout
     m = _j.loads(out)
+    global DECIDED
+    DECIDED = m.get("_texts", {})
     return {pid: rules for pid, rules in m.items() if pid in TEXT}
 
+DECIDED = {}
 CLAIMED = {}
 for pid, rules in claimed().items():
     tech = "; ".join(TECH[r] for r in rules)
     if len(tech) > 600:
         tech = "; ".join(TECH[r].split(":")[0].split(" (")[0] for r in rules)
-    CLAIMED[pid] = (", ".join(rules), tech, TEXT[pid], NOTE)
+    t = DECIDED.get(pid)
+    text = TEXT[pid]
+    if t:
+        # the same wording as the evidence files: what the check decides and what it does not
+        text = "Decides (structural clauses necessary for the property, on every path of the current source): " + t["decided"] + " Does not decide: " + t["not_decided"]
+    CLAIMED[pid] = (", ".join(rules), tech, text, NOTE)
 
 NOT_YET = "no sound structural rule built yet for this property in this revision of the checker (see DESIGN.md section 5); will be claimed when its rules land"
 NA = {}
